@@ -27,6 +27,9 @@ def win_args(win):
     if win["kind"] == "kaiser":
         return {"win": "kaiser", "psll": win["psll"]}
     if win["kind"] == "kaiser-func":
+        if win.get("lib") == "scipy":
+            from scipy.signal.windows import kaiser as sp_kaiser
+            return {"win": sp_kaiser, "psll": win["psll"]}
         return {"win": np.kaiser, "psll": win["psll"]}
     if win["kind"] == "hann":
         return {"win": win.get("name", "hann")}
@@ -53,7 +56,8 @@ def random_window(rng):
         return {"kind": "kaiser", "psll": float(rng.choice([40, 60, 90, 120, 160, 200,
                                                             round(rng.uniform(40, 200), 1)]))}
     if k < 0.55:
-        return {"kind": "kaiser-func", "psll": float(rng.choice([70, 140, 200]))}
+        return {"kind": "kaiser-func", "psll": float(rng.choice([70, 140, 200])),
+                "lib": str(rng.choice(["numpy", "scipy"]))}
     if k < 0.8:
         return {"kind": "hann", "name": str(rng.choice(["hann", "hanning"]))}
     return {"kind": "callable", "name": str(rng.choice(list(CALLABLES)))}
